@@ -134,7 +134,7 @@ def check_after_failed_write(ctx: Ctx, res: Result):
                 root = ctx.scratch("failw")
                 path = os.path.join(root, "snap")
                 seed = rng.randrange(1 << 30)
-                how = "fail-empty" if seed % 2 == 0 else "fail"
+                how = ("fail-empty", "fail-late", "fail")[seed % 3]
                 sched = rng.choice(["fifo", "random", ("starve", fr)])
                 world = cc.run_take(wl, path, mode, sched, seed, write_policy=lambda r, p, n, fr=fr, fn_=fn_, how=how: how if (r == fr and n == fn_) else None)
                 replay = {"workload": wl, "mode": mode, "sched": sched, "seed": seed, "fail_rank": fr, "fail_nth": fn_, "how": how}
